@@ -571,6 +571,24 @@ fn diagnose_with(prop: &str, tier: Tier, mode: &str, arg: &str, watchdog_s: f64)
                 let err = ch.stderr.recv_timeout(Duration::from_secs(2)).unwrap_or_default();
                 if !finished {
                     if begun {
+                        // without thread ids ("thread '<unknown>' (21554) has overflowed ..."), so that replays compare equal
+                        let err: String = {
+                            let mut out = String::new();
+                            let mut rest = err.as_str();
+                            while let Some(i) = rest.find(" (") {
+                                let tail = &rest[i + 2..];
+                                let n = tail.chars().take_while(|c| c.is_ascii_digit()).count();
+                                if n > 0 && tail[n..].starts_with(')') {
+                                    out.push_str(&rest[..i]);
+                                    rest = &tail[n + 1..];
+                                } else {
+                                    out.push_str(&rest[..i + 2]);
+                                    rest = tail;
+                                }
+                            }
+                            out.push_str(rest);
+                            out
+                        };
                         let tail: Vec<&str> = err.lines().rev().take(4).collect();
                         let reason = if err.contains("overflowed its stack") {
                             " (stack overflow)"
